@@ -223,4 +223,362 @@ theorem findOptimalPartition_isSome (N nq nt : Nat) (hN : 0 < N) (hq : 0 < nq) :
   | nil => rw [hc] at hmem; simp at hmem
   | cons x xs => simp [argminFirst]
 
+/-! ## Extensions (second pass) -/
+
+/-- Placement of explicitly given blocks (what the driver evaluates on navis' own job results): if every
+block holds `f` at its positions, the assembled matrix holds `f` on every covered cell. -/
+theorem fold_place_pairs {α} (f : Nat → Nat → α) (done : List (Job × List (List α)))
+    (hblk : ∀ jr ∈ done, ∀ a b (ha : a < jr.1.qix.length) (hb : b < jr.1.tix.length),
+        ((jr.2)[a]?).bind (·[b]?) = some (f (jr.1.qix[a]) (jr.1.tix[b])))
+    (m : Mat α) (r c : Nat) :
+    (done.foldl (fun m jr => place m jr.1 jr.2) m) r c =
+      if ∃ jr ∈ done, r ∈ jr.1.qix ∧ c ∈ jr.1.tix then some (f r c) else m r c := by
+  induction done generalizing m with
+  | nil => simp
+  | cons d ds ih =>
+    simp only [List.foldl_cons]
+    rw [ih (fun jr hjr => hblk jr (by simp [hjr])), place_spec f _ d.1 d.2 (hblk d (by simp))]
+    by_cases hx : ∃ jr ∈ ds, r ∈ jr.1.qix ∧ c ∈ jr.1.tix
+    · rw [if_pos hx, if_pos]
+      obtain ⟨j, hj, h⟩ := hx; exact ⟨j, by simp [hj], h⟩
+    · rw [if_neg hx]
+      by_cases hd : r ∈ d.1.qix ∧ c ∈ d.1.tix
+      · rw [if_pos hd, if_pos]; exact ⟨d, by simp, hd⟩
+      · rw [if_neg hd, if_neg]
+        rintro ⟨j, hj, h⟩
+        rw [List.mem_cons] at hj
+        rcases hj with rfl | hj
+        · exact hd h
+        · exact hx ⟨j, hj, h⟩
+
+/-! ### `scores='both'` -/
+
+theorem addOdd_cons_cons (v w : Nat) (rest : List Nat) :
+    addOdd (v :: w :: rest) = v :: (w + 1) :: addOdd rest := by
+  unfold addOdd
+  rw [List.mapIdx_cons, List.mapIdx_cons]
+  simp only [Nat.zero_mod, Nat.zero_ne_one, if_false, Nat.zero_add, Nat.one_mod, if_true]
+  congr 2
+  have : (fun (i v : Nat) => if (i + 1 + 1) % 2 = 1 then v + 1 else v) =
+      (fun i v => if i % 2 = 1 then v + 1 else v) := by
+    funext i v
+    have : (i + 1 + 1) % 2 = i % 2 := by omega
+    rw [this]
+  rw [this]
+
+/-- `np.repeat(qix*2, 2)` with `[1::2] += 1` lists `2q, 2q+1` for every query `q` of the block. -/
+theorem bothRows_eq (qix : List Nat) : bothRows qix = qix.flatMap fun q => [2 * q, 2 * q + 1] := by
+  unfold bothRows repeat2
+  induction qix with
+  | nil => rfl
+  | cons q qs ih =>
+    simp only [List.map_cons, List.flatMap_cons, List.cons_append, List.nil_append]
+    rw [addOdd_cons_cons, ih, Nat.mul_comm]
+
+theorem bothRows_length (qix : List Nat) : (bothRows qix).length = 2 * qix.length := by
+  rw [bothRows_eq]
+  induction qix with
+  | nil => rfl
+  | cons q qs ih => simp only [List.flatMap_cons, List.length_append, List.length_cons, List.length_nil, ih]; omega
+
+theorem bothRows_getElem? (qix : List Nat) (k : Nat) :
+    (bothRows qix)[k]? = (qix[k / 2]?).map fun q => 2 * q + k % 2 := by
+  rw [bothRows_eq]
+  induction qix generalizing k with
+  | nil => simp
+  | cons q qs ih =>
+    simp only [List.flatMap_cons, List.cons_append, List.nil_append]
+    match k with
+    | 0 => simp
+    | 1 => simp
+    | k + 2 =>
+      simp only [List.getElem?_cons_succ]
+      rw [ih k]
+      have h1 : (k + 2) / 2 = k / 2 + 1 := by omega
+      have h2 : (k + 2) % 2 = k % 2 := by omega
+      rw [h1, h2, List.getElem?_cons_succ]
+
+theorem mem_bothRows {qix : List Nat} {R : Nat} : R ∈ bothRows qix ↔ R / 2 ∈ qix := by
+  rw [bothRows_eq, List.mem_flatMap]
+  constructor
+  · rintro ⟨q, hq, h⟩
+    simp only [List.mem_cons, List.not_mem_nil, or_false] at h
+    have : R / 2 = q := by omega
+    rw [this]; exact hq
+  · intro h
+    refine ⟨R / 2, h, ?_⟩
+    simp only [List.mem_cons, List.not_mem_nil, or_false]
+    omega
+
+theorem getElem?_flatten_uniform {α} (ls : List (List α)) (m : Nat) (h : ∀ l ∈ ls, l.length = m)
+    (i b : Nat) (hb : b < m) : ls.flatten[i * m + b]? = (ls[i]?).bind (·[b]?) := by
+  induction ls generalizing i with
+  | nil => simp
+  | cons l ls ih =>
+    have hl : l.length = m := h l (by simp)
+    rw [List.flatten_cons]
+    match i with
+    | 0 =>
+      rw [Nat.zero_mul, Nat.zero_add, List.getElem?_append_left (by omega)]
+      simp
+    | i + 1 =>
+      rw [List.getElem?_append_right (by rw [hl, Nat.add_mul]; omega)]
+      have : (i + 1) * m + b - l.length = i * m + b := by rw [hl, Nat.add_mul]; omega
+      rw [this, ih (fun l hl => h l (by simp [hl])) i]
+      simp
+
+/-- Row `k` of the block a `both` job returns is the forward (`k` even) or reverse (`k` odd) row of
+query `k / 2`: the interleaving produced by `hstack` + `reshape`. -/
+theorem bothBlock_get {α} (res : List (List (α × α))) (nq nt : Nat) (_hlen : res.length = nq)
+    (hrow : ∀ row ∈ res, row.length = nt) (k b : Nat) (hk : k < 2 * nq) (hb : b < nt) :
+    ((bothBlock res nq nt)[k]?).bind (·[b]?) =
+      ((res[k / 2]?).bind (·[b]?)).map fun p => if k % 2 = 0 then p.1 else p.2 := by
+  unfold bothBlock reshape
+  rw [List.getElem?_map, List.getElem?_range hk]
+  simp only [Option.map_some, Option.bind_some]
+  rw [List.getElem?_take, if_pos hb, List.getElem?_drop]
+  have huni : ∀ l ∈ hstack (res.map (·.map Prod.fst)) (res.map (·.map Prod.snd)), l.length = 2 * nt := by
+    intro l hl
+    unfold hstack at hl
+    obtain ⟨i, hi, rfl⟩ := List.getElem_of_mem hl
+    simp only [List.getElem_zipWith, List.getElem_map, List.length_append, List.length_map]
+    simp only [List.length_zipWith, List.length_map, Nat.min_self] at hi
+    have := hrow res[i] (List.getElem_mem hi)
+    omega
+  have hrowk : (hstack (res.map (·.map Prod.fst)) (res.map (·.map Prod.snd)))[k / 2]? =
+      (res[k / 2]?).map fun row => row.map Prod.fst ++ row.map Prod.snd := by
+    unfold hstack
+    rw [List.getElem?_zipWith, List.getElem?_map, List.getElem?_map]
+    cases res[k / 2]? <;> simp
+  rcases Nat.mod_two_eq_zero_or_one k with hpar | hpar
+  · have hidx : k * nt + b = (k / 2) * (2 * nt) + b := by
+      have : k = 2 * (k / 2) := by omega
+      conv => lhs; rw [this]
+      rw [Nat.mul_comm 2 (k / 2), Nat.mul_assoc]
+    rw [hidx, getElem?_flatten_uniform _ (2 * nt) huni (k / 2) b (by omega), hrowk]
+    cases hr : res[k / 2]? with
+    | none => simp
+    | some row =>
+      have hrl : row.length = nt := hrow row (List.mem_of_getElem? hr)
+      simp only [Option.map_some, Option.bind_some]
+      rw [List.getElem?_append_left (by simp; omega), List.getElem?_map]
+      simp [hpar]
+  · have hidx : k * nt + b = (k / 2) * (2 * nt) + (nt + b) := by
+      have : k = 2 * (k / 2) + 1 := by omega
+      conv => lhs; rw [this]
+      rw [Nat.add_mul, Nat.mul_comm 2 (k / 2), Nat.mul_assoc]; omega
+    rw [hidx, getElem?_flatten_uniform _ (2 * nt) huni (k / 2) (nt + b) (by omega), hrowk]
+    cases hr : res[k / 2]? with
+    | none => simp
+    | some row =>
+      have hrl : row.length = nt := hrow row (List.mem_of_getElem? hr)
+      simp only [Option.map_some, Option.bind_some]
+      rw [List.getElem?_append_right (by simp; omega)]
+      simp only [List.length_map, hrl, Nat.add_sub_cancel_left, List.getElem?_map]
+      simp [hpar]
+
+theorem jobResult_length {α} (f : Nat → Nat → α) (j : Job) : (jobResult f j).length = j.qix.length := by
+  simp [jobResult, localQueries]
+
+theorem jobResult_row_length {α} (f : Nat → Nat → α) (j : Job) :
+    ∀ row ∈ jobResult f j, row.length = j.tix.length := by
+  intro row hrow
+  unfold jobResult at hrow
+  rw [List.mem_map] at hrow
+  obtain ⟨a, _, rfl⟩ := hrow
+  simp [localTargets]
+
+/-- One cell of a `both` job block, addressed through the destination rows `bothRows qix`. -/
+theorem jobResultBoth_get {α} (f : Nat → Nat → α × α) (j : Job) (k b : Nat)
+    (hk : k < (bothJob j).qix.length) (hb : b < (bothJob j).tix.length) :
+    ((jobResultBoth f j)[k]?).bind (·[b]?) =
+      some ((fun R c => if R % 2 = 0 then (f (R / 2) c).1 else (f (R / 2) c).2)
+        ((bothJob j).qix[k]) ((bothJob j).tix[b])) := by
+  have hk' : k < 2 * j.qix.length := by simpa [bothJob, bothRows_length] using hk
+  have hb' : b < j.tix.length := by simpa [bothJob] using hb
+  have ha : k / 2 < j.qix.length := by omega
+  unfold jobResultBoth
+  rw [bothBlock_get _ _ _ (jobResult_length f j) (jobResult_row_length f j) k b hk' hb',
+    jobResult_get f j (k / 2) b ha hb']
+  have hrow : (bothJob j).qix[k] = 2 * j.qix[k / 2] + k % 2 := by
+    have := bothRows_getElem? j.qix k
+    rw [List.getElem?_eq_getElem ha] at this
+    simp only [Option.map_some] at this
+    have h2 : (bothJob j).qix[k]? = some ((bothJob j).qix[k]) := List.getElem?_eq_getElem hk
+    simp only [bothJob] at h2 ⊢
+    rw [this] at h2
+    exact (Option.some.inj h2).symm
+  simp only [Option.map_some, hrow]
+  show _ = some (if (2 * j.qix[k / 2] + k % 2) % 2 = 0 then (f ((2 * j.qix[k / 2] + k % 2) / 2) j.tix[b]).fst
+      else (f ((2 * j.qix[k / 2] + k % 2) / 2) j.tix[b]).snd)
+  have e2 : (2 * j.qix[k / 2] + k % 2) / 2 = j.qix[k / 2] := by omega
+  have e1 : (2 * j.qix[k / 2] + k % 2) % 2 = k % 2 := by omega
+  rw [e1, e2]
+
+/-! ### `find_batch_partition` -/
+
+theorem batchRowsLoop_spec (cols n : Nat) (fuel rows : Nat) :
+    rows ≤ batchRowsLoop cols n fuel rows ∧ batchRowsLoop cols n fuel rows ≤ rows + fuel ∧
+    (∀ r, rows ≤ r → r < batchRowsLoop cols n fuel rows → (r * cols) % n ≠ 0) ∧
+    ((batchRowsLoop cols n fuel rows * cols) % n = 0 ∨ batchRowsLoop cols n fuel rows = rows + fuel) := by
+  induction fuel generalizing rows with
+  | zero =>
+    simp only [batchRowsLoop, Nat.add_zero, Nat.le_refl, true_and, or_true, and_true]
+    intro r h1 h2; omega
+  | succ fuel ih =>
+    unfold batchRowsLoop
+    split
+    · rename_i hne
+      obtain ⟨h1, h2, h3, h4⟩ := ih (rows + 1)
+      refine ⟨by omega, by omega, ?_, ?_⟩
+      · intro r hr hlt
+        by_cases hrr : r = rows
+        · rw [hrr]; exact hne
+        · exact h3 r (by omega) hlt
+      · rcases h4 with h4 | h4
+        · exact Or.inl h4
+        · exact Or.inr (by omega)
+    · rename_i hz
+      refine ⟨Nat.le_refl _, by omega, ?_, Or.inl (by omega)⟩
+      intro r hr hlt; omega
+
+/-- Among `n` consecutive row counts one makes `rows * cols` a multiple of `n`: the `while` loop stops
+after fewer than `n_cores` increments. -/
+theorem batchRowsLoop_terminates (cols n rows : Nat) (hn : 0 < n) :
+    (batchRowsLoop cols n n rows * cols) % n = 0 ∧ batchRowsLoop cols n n rows < rows + n := by
+  obtain ⟨h1, h2, h3, h4⟩ := batchRowsLoop_spec cols n n rows
+  -- a multiple of n within reach
+  let r0 := rows + (n - rows % n) % n
+  have hr0 : r0 % n = 0 := by
+    have hm : rows % n < n := Nat.mod_lt _ hn
+    by_cases hz : rows % n = 0
+    · have : (n - rows % n) % n = 0 := by rw [hz, Nat.sub_zero, Nat.mod_self]
+      simp only [r0, this, Nat.add_zero]; exact hz
+    · have : (n - rows % n) % n = n - rows % n := Nat.mod_eq_of_lt (by omega)
+      simp only [r0, this]
+      have hdm := Nat.div_add_mod rows n
+      have : rows + (n - rows % n) = n * (rows / n + 1) := by rw [Nat.mul_add]; omega
+      rw [this]; exact Nat.mul_mod_right _ _
+  have hr0c : (r0 * cols) % n = 0 := by rw [Nat.mul_mod, hr0]; simp
+  have hr0lt : r0 < rows + n := by
+    have : (n - rows % n) % n < n := Nat.mod_lt _ hn
+    simp only [r0]; omega
+  have hr0ge : rows ≤ r0 := by simp only [r0]; omega
+  have hle : batchRowsLoop cols n n rows ≤ r0 := by
+    rcases Nat.lt_or_ge r0 (batchRowsLoop cols n n rows) with hlt | hge
+    · exact absurd hr0c (h3 r0 hr0ge hlt)
+    · exact hge
+  refine ⟨?_, by omega⟩
+  rcases h4 with h4 | h4
+  · exact h4
+  · omega
+
+theorem findBatchPartition_none (npb nq nt : Nat) :
+    findBatchPartition npb nq nt none = (max 1 (nq / npb), max 1 (nt / npb)) := rfl
+
+theorem findBatchPartition_range_none (npb nq nt : Nat) (hq : 0 < nq) (ht : 0 < nt) :
+    1 ≤ (findBatchPartition npb nq nt none).1 ∧ (findBatchPartition npb nq nt none).1 ≤ nq ∧
+    1 ≤ (findBatchPartition npb nq nt none).2 ∧ (findBatchPartition npb nq nt none).2 ≤ nt := by
+  rw [findBatchPartition_none]
+  have h1 : nq / npb ≤ nq := Nat.div_le_self _ _
+  have h2 : nt / npb ≤ nt := Nat.div_le_self _ _
+  simp only
+  omega
+
+theorem findBatchPartition_cores (npb nq nt n : Nat) :
+    let base := max 1 (nq / npb)
+    let cols := max 1 (nt / npb)
+    let rc := findBatchPartition npb nq nt (some n)
+    rc.2 = cols ∧ base ≤ rc.1 ∧
+      (n ≠ 0 ∧ base * cols > n → (rc.1 * rc.2) % n = 0 ∧ rc.1 < base + n ∧
+          ∀ r, base ≤ r → r < rc.1 → (r * cols) % n ≠ 0) ∧
+      (¬ (n ≠ 0 ∧ base * cols > n) → rc.1 = base) := by
+  intro base cols rc
+  by_cases h : n ≠ 0 ∧ base * cols > n
+  · have hrc : rc = (batchRowsLoop cols n n base, cols) := by
+      simp only [rc, findBatchPartition]; rw [if_pos h]
+    obtain ⟨h1, h2, h3, _⟩ := batchRowsLoop_spec cols n n base
+    obtain ⟨t1, t2⟩ := batchRowsLoop_terminates cols n base (by omega)
+    rw [hrc]
+    exact ⟨rfl, h1, fun _ => ⟨t1, t2, h3⟩, fun hn => absurd h hn⟩
+  · have hrc : rc = (base, cols) := by
+      simp only [rc, findBatchPartition]; rw [if_neg h]
+    rw [hrc]
+    exact ⟨rfl, Nat.le_refl _, fun hp => absurd hp h, fun _ => rfl⟩
+
+theorem findOptimalPartition_cores (N nq nt r c : Nat)
+    (h : findOptimalPartition N nq nt = some (r, c)) : N % r = 0 ∧ c = min (N / r) nt ∧ r * c ≤ N := by
+  have hm := mem_optCandidates (argminFirst_mem _ _ _ h)
+  obtain ⟨h1, h2, h3, h4, h5⟩ := hm
+  refine ⟨h3, h5, ?_⟩
+  subst h5
+  have : r * (N / r) ≤ N := Nat.mul_div_le N r
+  have : r * min (N / r) nt ≤ r * (N / r) := Nat.mul_le_mul_left r (Nat.min_le_left _ _)
+  omega
+
+theorem chooseNblast_range (ncores : Option Nat) (progress : Bool) (npbP npbM nq nt r c : Nat)
+    (hq : 0 < nq) (ht : 0 < nt) (h : chooseNblast ncores progress npbP npbM nq nt = some (r, c)) :
+    1 ≤ r ∧ r ≤ nq ∧ 1 ≤ c ∧ c ≤ nt := by
+  unfold chooseNblast at h
+  cases ncores with
+  | none => simp only [Option.some.injEq, Prod.mk.injEq] at h; omega
+  | some n =>
+    simp only at h
+    split at h
+    · split at h
+      · have := findBatchPartition_range_none npbP nq nt hq ht
+        simp only [Option.some.injEq] at h
+        rw [h] at this; exact this
+      · split at h
+        · exact findOptimalPartition_range n nq nt r c ht h
+        · have := findBatchPartition_range_none npbM nq nt hq ht
+          simp only [Option.some.injEq] at h
+          rw [h] at this; exact this
+    · simp only [Option.some.injEq, Prod.mk.injEq] at h; omega
+
+theorem chooseNblast_isSome (ncores : Option Nat) (progress : Bool) (npbP npbM nq nt : Nat) (hq : 0 < nq) :
+    (chooseNblast ncores progress npbP npbM nq nt).isSome := by
+  unfold chooseNblast
+  cases ncores with
+  | none => rfl
+  | some n =>
+    simp only
+    split
+    · rename_i hn
+      split
+      · rfl
+      · split
+        · exact findOptimalPartition_isSome n nq nt (by omega) hq
+        · rfl
+    · rfl
+
+theorem chooseSimple_range (ncores : Option Nat) (progress : Bool) (npbP nq nt r c : Nat)
+    (hq : 0 < nq) (ht : 0 < nt) (h : chooseSimple ncores progress npbP nq nt = some (r, c)) :
+    1 ≤ r ∧ r ≤ nq ∧ 1 ≤ c ∧ c ≤ nt := by
+  unfold chooseSimple at h
+  cases ncores with
+  | none => simp only [Option.some.injEq, Prod.mk.injEq] at h; omega
+  | some n =>
+    simp only at h
+    split at h
+    · split at h
+      · have := findBatchPartition_range_none npbP nq nt hq ht
+        simp only [Option.some.injEq] at h
+        rw [h] at this; exact this
+      · exact findOptimalPartition_range n nq nt r c ht h
+    · simp only [Option.some.injEq, Prod.mk.injEq] at h; omega
+
+theorem chooseSimple_isSome (ncores : Option Nat) (progress : Bool) (npbP nq nt : Nat) (hq : 0 < nq) :
+    (chooseSimple ncores progress npbP nq nt).isSome := by
+  unfold chooseSimple
+  cases ncores with
+  | none => rfl
+  | some n =>
+    simp only
+    split
+    · split
+      · rfl
+      · exact findOptimalPartition_isSome n nq nt (by omega) hq
+    · rfl
+
 end Navis.Partition
